@@ -59,6 +59,18 @@ CHECKS = {
    text="spec/Reshape.tla is a branch-by-branch transcription of the two-cursor merge/split walk of torchtt.reshape (tensor and operator branch) over shapes; TLC walks every (source, target) pair of a small scope and checks ShapeOK (emitted modes = requested), AllConsumed (no input core left behind: the sign/phase defect class), the SVD-split budget and termination; spec/Permute.tla (bubble sort with swap budget, all permutations) and spec/Qtt.tla (split/regroup arithmetic, round trip) likewise. Every walked case is executed on torchtt on random data (3 rank profiles, real/complex, eps default..1e-1) and compared with the dense reshape/permute: exact mode sizes, value within 3*eps, sign/phase, operand unchanged.",
    note="Values are sampled (random cores); the truncation-error amplification of permute in non-orthogonal gauges is only sampled. The float math.log pitfall of to_qtt does not occur for mode_size 2 up to 2^39 (checked) and is outside the power-of-two scope for other bases.",
    technique="TLA+ transcription of the reshape/permute/QTT control flow, TLC invariants, every walked case replayed into torchtt"),
+ "C11": dict(level=EX, design="§6 C11",
+   text="TLC enumerates the configuration space of the four product routines from spec/Configs.tla (structure, ranks, data class, eps decade, initial-guess mode incl. aliasing and reuse, dtype, seed) with the abstract expected outcome; every configuration is executed and the relative error against the dense product is measured (<= 10*eps), together with result shape, well-formedness and bitwise-unchanged arguments. The sweep's rank/shape calculus is model-checked separately (spec/Dmrg.tla) and recorded sweeps are validated against it.",
+   note="Exploration: accuracy for all seeds is sampled, not proved. The model contributes the exhaustive configuration space and the sweep calculus, not the numerical bound.",
+   technique="TLC-enumerated configuration space + harness-measured error bound; TLA+ sweep calculus with trace validation"),
+ "C12": dict(level=EX, design="§6 C12",
+   text="TLC enumerates amen_solve configurations (system class x structure x rank x eps x preconditioner x max_full x local solver x guess x seed) from spec/Configs.tla; each is solved and the dense relative residual is compared with 10*eps; shape and unchanged arguments are checked.",
+   note="Exploration; three well-conditioned system classes named in the property.",
+   technique="TLC-enumerated configuration space + harness-measured residual"),
+ "C13": dict(level=EX, design="§6 C13",
+   text="TLC enumerates the division configurations (form x structure x ranks x eps x starting-tensor mode x seed) from spec/Configs.tla; q*y is compared densely with x (<= 50*eps_solver), operands (incl. an aliased or reused starting tensor) must be unchanged, x/scalar exact.",
+   note="Exploration; divisors y = 1 + z*z bounded away from zero.",
+   technique="TLC-enumerated configuration space + harness-measured q*y = x"),
 }
 
 NA = {}
